@@ -50,6 +50,14 @@ Definition print_entry4 (e : entry4) : list N :=
   print_v4 (e_addr e) ++ (if e_plain e then [] else 47 :: dec (e_plen e)).
 Definition entry4_net (e : entry4) : net := (V4 (e_addr e), e_plen e).
 
-(* the allowlist a list of entries stands for: none listed = allow all *)
-Definition spec_allowlist (es : list entry4) : option (list net) :=
-  match es with [] => None | _ => Some (map entry4_net es) end.
+(* the allowlist a list of networks stands for: none listed = allow all *)
+Definition spec_allowlist_nets (l : list net) : option (list net) :=
+  match l with [] => None | _ => Some l end.
+Definition spec_allowlist (es : list entry4) : option (list net) := spec_allowlist_nets (map entry4_net es).
+
+(* an allowlist entry of a server scenario: an IPv4 entry in the documented syntax (its meaning is given by the
+   printer above), or an entry of any family and spelling whose stated meaning [n] is accepted only if the parser
+   model reads the text as [n] (checked by wf_case in Exec.v; the parser models are tied to ipnet/std by layer D) *)
+Inductive sentry := E4 (i : entry4) | EP (n : net).
+Definition sentry_net (e : sentry) : net := match e with E4 i => entry4_net i | EP n => n end.
+Definition spec_allowlist_s (es : list sentry) : option (list net) := spec_allowlist_nets (map sentry_net es).
